@@ -17,6 +17,10 @@ pub struct Case {
     pub pt_len: usize,
     pub aad_len: usize,
     pub tag: u64,
+    /// compare the allocating and the in-place forms at the end of the sequence space (hook): last
+    /// sequence number, and after exhaustion
+    #[serde(default)]
+    pub boundary: bool,
 }
 
 pub struct C14;
@@ -45,9 +49,13 @@ impl Part for C14 {
                     } else {
                         vec![(0, 0), (0, 17), (1, 1), (17, 0), (64, 64), (16, 1)]
                     };
+                    let shapes_first = shapes[0];
                     for (pt_len, aad_len) in shapes {
                         tag += 1;
-                        v.push(Case { suite, mode, info_len, pt_len, aad_len, tag });
+                        v.push(Case { suite, mode, info_len, pt_len, aad_len, tag, boundary: false });
+                        if mode == Mode::Base && (pt_len, aad_len) == shapes_first && (t || suite.kdf == suite.kem.kdf()) {
+                            v.push(Case { suite, mode, info_len, pt_len: 5, aad_len: 3, tag, boundary: true });
+                        }
                     }
                 }
             }
@@ -68,6 +76,10 @@ impl Part for C14 {
         // the script is longer than needed so that an over-draw shows up in the log comparison
         let script = [&k.ikm_e[..], &bytes(Fill::Mix, 64, 142, cfg.seed)[..]].concat();
 
+        if c.boundary {
+            boundary_case(&mut out, cfg, c, ops.as_ref(), &k, &m, &info);
+            return out;
+        }
         // R1's expectation
         let want = r1_setup_s(c.suite, &m, &k.pk_r, &info, &k.ikm_e).map(|(enc, mut ctx)| (enc, ctx.seal(&aad, &pt).unwrap()));
         let (enc_ref, ct_ref) = match want {
@@ -209,6 +221,96 @@ impl Part for C14 {
         }
         let _ = (body, tag, Aead::ExportOnly);
         out
+    }
+}
+
+/// allocating vs in-place forms on contexts at the last sequence number and after exhaustion: the two
+/// forms must agree on every delivery (and with R1 / the message limit)
+fn boundary_case(out: &mut CaseOut, _cfg: &Cfg, c: &Case, ops: &dyn crate::suites::SuiteOps, k: &Keys, m: &crate::suites::ModeSpec, info: &[u8]) {
+    let nt = c.suite.aead.nt();
+    let (enc, refctx) = match r1_setup_s(c.suite, m, &k.pk_r, info, &k.ikm_e) {
+        Some(x) => x,
+        None => {
+            out.fail("R1 setup failed");
+            return;
+        }
+    };
+    let last = u64::MAX as u128;
+    let msg = |seq: u128, tagb: u8| -> (Vec<u8>, Vec<u8>, Vec<u8>) {
+        let pt = vec![tagb; 5];
+        let aad = vec![tagb ^ 0xff; 3];
+        let ct = refctx.seal_at(seq, &aad, &pt);
+        (pt, aad, ct)
+    };
+    let m_last = msg(last, 1);
+    let m_prev = msg(last - 1, 2);
+    // deliveries: (name, wire, aad)
+    let mut garbage = m_last.2.clone();
+    garbage[0] ^= 1;
+    let deliveries: Vec<(&str, Vec<u8>, Vec<u8>)> = vec![
+        ("message of the previous position", m_prev.2.clone(), m_prev.1.clone()),
+        ("tampered last message", garbage, m_last.1.clone()),
+        ("last message", m_last.2.clone(), m_last.1.clone()),
+        ("replay of the last message", m_last.2.clone(), m_last.1.clone()),
+        ("message of the previous position again", m_prev.2.clone(), m_prev.1.clone()),
+        ("zeros", vec![0u8; 16 + 4], vec![]),
+    ];
+    let (mut ra, mut rb) = match (ops.setup_receiver(m, &k.sk_r, &enc, info), ops.setup_receiver(m, &k.sk_r, &enc, info)) {
+        (Obs::Ok(a), Obs::Ok(b)) => (a, b),
+        _ => {
+            out.fail("setup_receiver failed");
+            return;
+        }
+    };
+    ra.set_seq(u64::MAX);
+    rb.set_seq(u64::MAX);
+    for (i, (name, wire, aad)) in deliveries.iter().enumerate() {
+        let a = ra.open(wire, aad);
+        let (body, tag) = wire.split_at(wire.len() - nt);
+        let mut buf = body.to_vec();
+        let b = rb.open_ip(&mut buf, aad, tag).map(|_| buf.clone());
+        out.transitions += 2;
+        // expectation: deliveries 0,1 rejected; 2 accepted; from then on the context is exhausted
+        let want: Obs<Vec<u8>> = match i {
+            0 | 1 => Obs::Err(HpkeError::OpenError),
+            2 => Obs::Ok(m_last.0.clone()),
+            _ => Obs::Err(HpkeError::MessageLimitReached),
+        };
+        if a != b {
+            out.fail(format!("at the end of the sequence space, delivery '{}': open() gives {} but open_in_place_detached() gives {}", name, a.class(), b.class()));
+        }
+        if a != want {
+            out.fail(format!("at the end of the sequence space, delivery '{}': open() gives {} want {}", name, a.class(), want.class()));
+        }
+        if ra.seq_state() != rb.seq_state() {
+            out.fail(format!("after delivery '{}' the two receivers are in different states {:?} vs {:?}", name, ra.seq_state(), rb.seq_state()));
+        }
+    }
+    // sender: seal vs seal_in_place_detached
+    let mk = || -> Option<Box<dyn crate::suites::SCtx>> {
+        let mut rng = ScriptRng::new(&k.ikm_e);
+        ops.setup_sender(m, &k.pk_r, info, &mut rng).ok().map(|x| x.1)
+    };
+    if let (Some(mut sa), Some(mut sb)) = (mk(), mk()) {
+        sa.set_seq(u64::MAX - 1);
+        sb.set_seq(u64::MAX - 1);
+        for i in 0..4u128 {
+            let seq = last - 1 + i;
+            let (pt, aad, ct) = msg(seq.min(last), 7);
+            let a = sa.seal(&pt, &aad);
+            let mut buf = pt.clone();
+            let b = sb.seal_ip(&mut buf, &aad).map(|t| [&buf[..], &t[..]].concat());
+            out.transitions += 2;
+            let want: Obs<Vec<u8>> = if seq <= last { Obs::Ok(ct) } else { Obs::Err(HpkeError::MessageLimitReached) };
+            if a != b || a != want {
+                out.fail(format!("sealing at sequence {:#x}: seal() {} / seal_in_place_detached() {} / expected {}", seq, a.class(), b.class(), want.class()));
+            }
+            if seq > last && buf != pt {
+                out.fail("seal_in_place_detached modified the buffer although the message limit was reached");
+            }
+        }
+    } else {
+        out.fail("setup_sender failed");
     }
 }
 
